@@ -195,12 +195,27 @@ def rule_2(ctx):
         ctx.expect(ok, f.node, f'IF(condition {cond!r}): one evaluation of the condition, then only branch {want_branch}',
                    f'IF with a condition evaluating to {cond!r} evaluates {log} and yields {out.value!r}: exactly the condition and the '
                    f'selected branch ({want_branch}) must be evaluated, in that order')
+    # conditions as the cells deliver them: instances of the value classes (truth by their own __bool__)
+    for cls, payload, want_branch in (('Number', 0, 'b'), ('Number', 2, 'a'), ('Number', -0.5, 'a'), ('Boolean', False, 'b'), ('Boolean', True, 'a'),
+                                      ('Blank', None, 'b'), ('Text', '', 'b')):
+        log = []
+        cond = Rec(cls=XLT + cls, value=payload)
+        t = [_Thunk('cond', cond, log), _Thunk('a', 'A', log), _Thunk('b', 'B', log)]
+        try:
+            out = _call(ctx, f, t)
+        except Unmodelled as exc:
+            raise Unmodelled(f'IF: {exc}')
+        ok = out.end == 'return' and out.value == want_branch.upper() and log == ['cond', want_branch]
+        ctx.expect(ok, f.node, f'IF(condition {cls} {payload!r}): branch {want_branch}',
+                   f'IF with a condition evaluating to the {cls} value {payload!r} evaluates {log} and ends in {out.end} {out.value!r}: expected the '
+                   f'value of branch {want_branch} (0, FALSE, a blank and the empty cell content "" select the else-branch; every other number the '
+                   'then-branch)')
     # omitted branches
     log = []
     out = _call(ctx, f, [_Thunk('cond', False, log), _Thunk('a', 'A', log)])
     ctx.expect(out.end == 'return' and out.value is False, f.node, 'IF(FALSE, a) yields FALSE',
                f'IF with the else-branch omitted and a false condition gives {out.end} {out.value!r}')
-    ctx.floor(7, 'IF decision table')
+    ctx.floor(14, 'IF decision table')
 
 
 def rule_3(ctx):
@@ -287,10 +302,19 @@ def _error_checked(ctx, fn, m, var, after):
     return False
 
 
+def rule_6(ctx):
+    """A branch that is selected and fails must not influence later evaluations (which may select the other branch): the
+    evaluator is left as it was found by every evaluation, also a failed one (shared with C06.2 / C04.5)."""
+    from . import corelemma
+    n = corelemma.rule_evaluator_state(ctx)
+    ctx.floor(n, 'evaluator-state scenarios')
+
+
 RULES = [
     ('C10.1', 'thunks are not forced by FunctionNode.eval', rule_1),
     ('C10.2', 'IF evaluates the condition once and exactly one branch', rule_2),
     ('C10.3', 'AND/OR short-circuit, skip blanks only; NOT negates', rule_3),
     ('C10.4', 'defaults of thunk parameters are thunks', rule_4),
     ('C10.5', 'thunk results are checked for errors before their truth value is taken', rule_5),
+    ('C10.6', 'a failed branch evaluation leaves no trace on the evaluator (shared with C06.2)', rule_6),
 ]
